@@ -15,6 +15,7 @@ import JanetModel.Peg.ValidateLemmas
 import JanetModel.Peg.CompileCorrect
 import JanetModel.Peg.BackrefLemmas
 import JanetModel.Peg.CompileEntry
+import JanetModel.Peg.CompileFlag
 
 namespace JanetModel.Props.C12
 open JanetModel.Peg
@@ -442,6 +443,38 @@ theorem compiled_backref_flag_certified (P : Program) (S : List Nat) (hS : Backr
     opMatcher { E with hasBackref := false } (decode P) entry fuel guard = opMatcher { E with hasBackref := true } (decode P) entry fuel guard :=
   (backref_flag_unobservable_op E hraw hE false true (decode P) (· ∈ S) (Backref.closedNoTag_sound _ _ hS) entry hentry fuel guard
     0 .nil false).1
+
+/-- **compile_flag_sound.**  When the compile model leaves `has_backref` clear, the rule addresses it logged are closed under
+    sub-rule operands and none of them holds RULE_GETTAG / RULE_BACKMATCH (the flag clause is part of the compiler invariant:
+    `Fin` / `Frame` in Peg/CompileCorrect.lean). -/
+theorem compile_flag_sound (dflt : Spec.Scope) (p : Spec.Patt) (o : Compile.Output) (hc : Compile.compile dflt p = some o)
+    (hf : o.hasBackref = false) : Backref.Closed (decode o.program) (fun a => ∃ c, (a, c) ∈ o.log) :=
+  compile_closed dflt p o hc hf
+
+/-- **compile_correct_real_flag.**  What peg.c executes for a compiled grammar - the emitted bytecode, started at address 0,
+    recording tagged captures only if the compiler set `has_backref` - gives, for every text, arguments, fuel and depth budget,
+    exactly what the documented meaning of the SOURCE grammar gives (`Spec.fetch`, tags always recorded): same error, same
+    failure, same end position, same captures; hence also the same find / find-all / replace / replace-all.
+    Hypotheses: the two generated facts about the current peg.c (`Tie.lenprefix_mode_restored`, `Tie.number_capture_not_raw`). -/
+theorem compile_correct_real_flag (E : Env) (hE : E.lenprefixLeak = false) (hraw : E.numRaw = false) (dflt : Spec.Scope)
+    (p : Spec.Patt) (o : Compile.Output) (hc : Compile.compile dflt p = some o) (fuel guard : Nat) :
+    opMatcher { E with hasBackref := o.hasBackref } (decode o.program) 0 fuel guard =
+      denMatcher { E with hasBackref := true } (Spec.fetch dflt) ⟨[], p⟩ fuel guard := by
+  have hsrc := compile_entry_points_from_zero { E with hasBackref := true } hE dflt p o hc fuel guard
+  cases hf : o.hasBackref with
+  | true => exact hsrc
+  | false =>
+    have h0 : (0, (⟨[], p⟩ : Spec.Closure)) ∈ o.log := by
+      have := (compile_simulation dflt p o hc).1
+      rwa [compile_entry_zero dflt p o hc] at this
+    have := (backref_flag_unobservable_op E hraw hE false true (decode o.program) (fun a => ∃ c, (a, c) ∈ o.log)
+      (compile_flag_sound dflt p o hc hf) 0 ⟨_, h0⟩ fuel guard 0 .nil false).1
+    rw [this]; exact hsrc
+
+/-- non-vacuity: both values of the flag occur: `(% (<- "a" :t))` compiles with the flag clear although it TAGS a capture (nothing
+    reads it), `(* (<- 1 :t) (backmatch :t))` sets it -/
+example : (Compile.compile [] (.accumulate (.capture (.str [97]) 1) 0)).map (·.hasBackref) = some false := by decide +kernel
+example : (Compile.compile [] (.seq [.capture (.int 1) 1, .backmatch 1])).map (·.hasBackref) = some true := by decide +kernel
 
 /-- non-vacuity: `(% (<- "a"))` = [ACCUMULATE 3 0; CAPTURE 6 0; LITERAL 1 'a'] has the certificate {0, 3, 6} (found by `reach`);
     `(backmatch)` has none -/
